@@ -173,6 +173,14 @@ theorem rename_changes_names_only (S : List Nat) (new : α) (n : Node α) :
     Node.map (fun _ => ()) (Node.renameAt S new n) = Node.map (fun _ => ()) n :=
   renameAt_erase S new n
 
+/-- non-vacuity: a node with explicit type-argument children and a renamed receiver -/
+example : Node.map (fun _ => ()) (Node.renameAt [5] 9 (.mk .seq none 0 [.mk .var (some 1) 5 [], .mk .tyUse (some 3) 6 []]))
+    = Node.map (fun _ => ()) (Node.mk Tag.seq none 0 [.mk .var (some 1) 5 [], .mk .tyUse (some 3) 6 []]) :=
+  rename_changes_names_only [5] 9 _
+example : Node.renameAt [5] 9 (.mk .seq none 0 [.mk .var (some 1) 5 [], .mk .tyUse (some 3) 6 []])
+    = (.mk .seq none 0 [.mk .var (some 9) 5 [], .mk .tyUse (some 3) 6 []] : Node Nat) := by
+  simp [Node.renameAt, Node.renameAtList]
+
 /-- …and at member level, parameters included (`mod_def_id` on `AnnotatedId`s,
 `variable_definition.rs:400-450`): type parameters, parameter annotations, return type, parameters,
 body. -/
